@@ -63,6 +63,12 @@ def run(ctx):
     from ..rules import fieldfit
     nff, nffd = fieldfit.check(ctx, P.funcs_in("src/compression/snappy.c", "src/compression/lz4.c"))
     ctx.floor("C09 packed tag bytes decided", nffd, 5)
+    ctx.clause("C09.8 LZ4 length extensions: the encoder emits 255-bytes exactly while 255 or more remain, the decoder reads on exactly after a 255")
+    from ..rules import lenext
+    nle, nld = lenext.check(ctx, [LZ])
+    ctx.floor("C09 LZ4 length-extension emit loops", nle, 1)
+    ctx.floor("C09 LZ4 length-extension read loops", nld, 1)
+    ctx.count("lz4_length_extension_loops", nle + nld)
     for file_, fname, bound in ((SN, "carquet_snappy_compress", "carquet_snappy_compress_bound"),
                                 (LZ, "carquet_lz4_compress", "carquet_lz4_compress_bound")):
         f = P.fn(fname, file_)
